@@ -462,7 +462,7 @@ class Monitor:
         for fo in fs.folders.values():
             fo.scan_duration, fo.restore_duration = d_scan, d_rest
         N.config.node_scan_duration = d_node
-        N.software_manager.software["database-service"].max_sessions = 2
+        N.software_manager.software["database-service"].max_sessions = 1
         self.durs = {"fix": d_fix, "folder-scan": d_scan, "folder-restore": d_rest, "node-scan": d_node}
         self.sh.db_file = {HOST: ("file", HOST, "database", "database.db")}
         sim.pre_timestep(0)
@@ -749,9 +749,10 @@ class Check:
         "items are keyed by path; a file/folder object created by create_file/create_folder/FTP store is a new item; a database restore keeps the path's visible health",
         "OVERWHELMED and back to GOOD through IOSoftware.add_connection is an explicit event (DoS); WebServer GET /users health changes are outside the workload",
     ]
-    min_monitor = {"visible_writes": 20000, "visible_changes_inside_scan": 5000, "actual_changes_explained": 20000,
-                   "sync_item_compares": 1000000, "completions_observed": 4, "calibration_runs": 100,
-                   "folder_scan_coverage_checks": 1000, "node_scan_coverage_checks": 500, "instant_scan_postchecks": 2000}
+    min_monitor = {"visible_writes": 20000, "visible_changes_inside_scan": 15000, "actual_changes_explained": 5000,
+                   "sync_item_compares": 1000000, "completions_judged_on_schedule": 3000, "calibration_runs": 100,
+                   "folder_scan_coverage_checks": 1000, "node_scan_coverage_checks": 1000, "instant_scan_postchecks": 1500,
+                   "sequences": 5000}
     case_timeout = {"quick": 1500, "thorough": 5400}
 
     def cases(self, tier, seed):
